@@ -215,7 +215,7 @@ def gen_xxh(tier, rng):
     for n in (1, 3, 4, 7, 8, 11, 12, 31, 32, 33, 35, 36, 39, 40, 63, 64, 65, 95, 96, 127, 128, 129, 255, 256, 1024):
         for fill in (b"\x00", b"\xff"):
             cases.append(("xxh", rng.randrange(16), rng.choice([0, M64, rng.getrandbits(64)]), fill * n))
-    nlong = 300 if tier == "thorough" else 60
+    nlong = 1200 if tier == "thorough" else 60
     for _ in range(nlong):
         base = rng.choice([32, 64, 96, 128, 512, 1024, 2048]) if rng.random() < 0.5 else rng.randrange(97, 3000)
         n = base + rng.choice([0, 0, 1, 3, 4, 5, 7, 8, 9, 12, 15, 16, 20, 24, 28, 31, -1])
@@ -425,7 +425,7 @@ def corpus_lines():
 
 
 def check_bloom(rep, tier, rng, drv, run):
-    nsc = 6000 if tier == "thorough" else 1400
+    nsc = 20000 if tier == "thorough" else 1400
     scen = [l.split()[1:] for l in corpus_lines() if l.startswith("bloom ")]
     scen += [gen_scenario(tier, rng) for _ in range(nsc)]
     lines = ["bloom " + " ".join(ops) for ops in scen]
@@ -502,6 +502,15 @@ def run(tier):
         return rep.finish()
     n1 = check_xxh(rep, tier, rng, drv, run_)
     n2 = check_bloom(rep, tier, rng, drv, run_)
+    if tier == "thorough" and not rep.proof_error:
+        # independent re-check of the compiled cone by coqchk (also reports axioms / unsafe flags)
+        p = vlib.sh(["timeout", "1500", "coqchk", "-silent", "-o", "-Q", "theories", "Carquet",
+                     "Carquet.Props.Properties_C20"], cwd=vlib.COQ)
+        txt = p.stdout + p.stderr
+        clean = p.returncode == 0 and "Axioms: <none>" in txt
+        rep.cov["coqchk"] = "ok, no axioms" if clean else txt[-600:]
+        if not clean:
+            rep.broken.append(("proof", "coqchk does not accept the compiled proofs of C20: " + txt[-400:], None))
     log(f"C20: {n1} hash cases, {n2} Bloom scenarios")
     return rep.finish()
 
